@@ -245,3 +245,19 @@ PROPS["C36"] = {
     "assumptions": STD_CUTS + ["the harness's World::send/succeed/fail is a faithful transcription of the acknowledgement handling in client/session/services/subscriptions/service.rs"],
     "tiers": tiers("c36", qbounds="3 concrete histories of 6-8 events, 2 notifications with symbolic (u32, u32) identities; unwind 6", tbounds="adds a fourth history (both in-flight requests carry acknowledgements)"),
 }
+
+PROPS["C01"] = {
+    "module": "c01_roundtrip",
+    "level": MC,
+    "technique": "Kani/CBMC symbolic execution of encode -> decode -> re-encode on values built from symbolic scalars, one harness per concrete shape; byte_len, bytes written, cursor position, value equality and re-encoded bytes asserted",
+    "kernels": ["BinaryEncoder::{byte_len, encode, decode} for u32 i64 f64 Guid StatusCode UAString ByteString NodeId QualifiedName LocalizedText ExpandedNodeId ExtensionObject DataValue DiagnosticInfo Variant", "Variant::decode (empty arrays)", "write_i32/read_i32 family"],
+    "explanation": "Per shape (which optional parts are present, string lengths 0..2, which NodeId encoding) all scalar payloads are symbolic. Asserted: encode succeeds and writes exactly byte_len() bytes; decoding those bytes succeeds, "
+                   "stops exactly at byte_len, and yields an equal value (f64 by bit pattern; LocalizedText null == empty); re-encoding the decoded value reproduces the same bytes. NodeId numeric encodings at the boundaries "
+                   "0/255/256/65535/65536 and namespaces 0/255/256; DataValue with and without each timestamp/picoseconds pair; empty Variant arrays with and without dimensions (cursor only: their dimensions are a documented normalisation).",
+    "outside": "generated request/response structures; symbolic presence of optional parts in one query (makes the encoded length, hence the stream cursor, symbolic: out of memory) - presence is enumerated by instances instead; strings longer than 2 bytes and non-ASCII; DateTime values other than three concrete instants; nested arrays / arrays of non-Int32",
+    "assumptions": ["alloc::fmt::format returns an empty String", UTF8_STUB, "paths through regex::Regex::new are cut", "streams::Sink / SrcLong model Write / Read over a 28-byte buffer"],
+    "tiers": {
+        "quick": {"groups": [{"filters": ["c01_q_"], "timeout": 900, "jobs": 16}], "bounds": "17 shapes; payload scalars: all values; strings <= 2 ASCII bytes; buffer 28 bytes; unwind 30"},
+        "thorough": {"groups": [{"filters": ["c01_q_", "c01_t_"], "timeout": 2400, "jobs": 12}], "bounds": "adds StatusCode, NodeId guid/bytestring, LocalizedText, ExpandedNodeId, ExtensionObject, DiagnosticInfo, more DataValue shapes, Variant String/NodeId/Variant-in-Variant, Int32 arrays of 2 with and without dimensions"},
+    },
+}
